@@ -10,8 +10,10 @@
 //! names the panic the planned lookups lead to), or, in the order observed on the real run
 //! (event log of lookups and frames):
 //!   `lookup <c> <hexname> <id>`        -> `hit <addr>` | `miss <port> <query datagram hex>`
-//!   `deliver q <c> <port>`             -> `reply <reply datagram hex>`      (query reaches the server)
-//!   `deliver r <c> <port>`             -> `ok <addr> id=<id> q=<hex> an=<hex>` (client consumed its reply)
+//!   `deliver q <c> <port>`             -> `reply <reply datagram hex>` | `reply none` (query reaches the
+//!                                         server; `none`: the responder could not answer and sent nothing)
+//!   `deliver r <c> <port>`             -> `ok <addr> id=<id> q=<hex> an=<hex>` | `fail err:Cache|err:Other`
+//!                                         (client consumed its reply; what get_host_by_name returned)
 //!   `drop q <c> <port>`                -> `dropped`   (the query reached the server machine and was
 //!                                         discarded there: no reply, the lookup hangs; F-C20-3)
 //!   `end`                              -> per client: sorted cache, number of query datagrams
@@ -28,7 +30,7 @@ use elvis_core::{
     network::VerifFramePlan,
     protocol::{DemuxError, StartError},
     protocols::{
-        dns::{dns_client::DnsClient, dns_server::DnsServer},
+        dns::{dns_client::{DnsClient, DnsClientError}, dns_server::DnsServer},
         ipv4::Ipv4Address,
         Arp, Endpoint, SocketAPI, Udp,
     },
@@ -162,7 +164,12 @@ impl Protocol for Resolver {
                 let pre = dns.get_mapping(&name);
                 log.push(Ev::Note(format!("L start {} {} {}", client, idx, match pre { Ok(a) => fmt_ip(a.to_bytes()), Err(_) => "miss".into() })));
                 let r = dns.get_host_by_name(name.clone(), machine.clone()).await;
-                log.push(Ev::Note(format!("L done {} {} {}", client, idx, match r { Ok(a) => fmt_ip(a.to_bytes()), Err(_) => "err".into() })));
+                let res = match r {
+                    Ok(a) => fmt_ip(a.to_bytes()),
+                    Err(DnsClientError::Cache) => "err:Cache".into(),
+                    Err(DnsClientError::Other) => "err:Other".into(),
+                };
+                log.push(Ev::Note(format!("L done {} {} {}", client, idx, res)));
                 if done.n.fetch_add(1, Ordering::SeqCst) + 1 == done.total {
                     done.notify.notify_one();
                 }
@@ -340,6 +347,20 @@ fn run_real(case: &Case) -> Observed {
     let mut universe: Vec<Vec<u8>> = case.records.iter().map(|r| r.0.clone()).chain(case.plan.iter().map(|p| p.2.clone())).collect();
     universe.extend(BUILTIN.iter().map(|b| b.0.as_bytes().to_vec()));
     universe.push(b"other.example".to_vec());
+    // every answer name that travelled towards a client (a misaligned parse of a delimiter-carrying
+    // name makes the server echo names nobody asked for; the client caches them)
+    let events = built.log.snapshot();
+    for e in &events {
+        if let Ev::Wire { to: None, target: Target::Ipv4, bytes, .. } = &e.ev {
+            if let Some((src, sp, _, _, payload)) = parse_udp(bytes) {
+                if src == SERVER_ADDR && sp == 53 {
+                    if let Some((_, _, an, _)) = split_reply(&payload) {
+                        universe.push(an);
+                    }
+                }
+            }
+        }
+    }
     universe.sort();
     universe.dedup();
     let mut caches = vec![];
@@ -352,7 +373,7 @@ fn run_real(case: &Case) -> Observed {
                 .collect(),
         );
     }
-    Observed { end, events: built.log.snapshot(), caches }
+    Observed { end, events, caches }
 }
 
 /// an IPv4/UDP frame as the hook shows it: (src ip, src port, dst ip, dst port, payload)
@@ -571,10 +592,13 @@ fn analyse(case: &Case, ob: &Observed, rep: &mut CaseReport) {
             }
             Step::AtServer(k) => {
                 let q = &qs[*k];
-                if q.reply.is_none() && case.rogue == "none" && matches!(ob.end, RunEnd::Stuck) {
-                    // the datagram reached the server machine but nobody ever answered it
-                    let t = ob.events[q.at_server_ev.unwrap()].t_us;
-                    let same_instant_before = qs.iter().filter(|o| o.at_server_ev.map(|e| ob.events[e].t_us == t && e < q.at_server_ev.unwrap()).unwrap_or(false)).count();
+                let t = ob.events[q.at_server_ev.unwrap()].t_us;
+                let same_instant_before = qs.iter().filter(|o| o.at_server_ev.map(|e| ob.events[e].t_us == t && e < q.at_server_ev.unwrap()).unwrap_or(false)).count();
+                if q.reply.is_none() && case.rogue == "none" && same_instant_before >= 10 {
+                    // the datagram reached the server machine while 10 or more connections of the same
+                    // instant were waiting to be accepted, and nobody ever answered it: discarded by
+                    // the listen backlog (an accepted query the responder cannot answer also gets no
+                    // reply; that is `deliver q` -> `reply none` below)
                     rep.line(format!("drop q {} {}", q.client, q.port), "dropped");
                     rep.count("query_dropped_at_server");
                     dropped.push((q.client, q.port, same_instant_before));
@@ -593,7 +617,13 @@ fn analyse(case: &Case, ob: &Observed, rep: &mut CaseReport) {
                 }
                 last_done_port.insert(l.client, p);
                 let (rid, rq, ran) = q.reply.as_ref().and_then(|r| split_reply(r)).map(|x| (x.0.to_string(), hex(&x.1), hex(&x.2))).unwrap_or(("-".into(), "-".into(), "-".into()));
-                rep.line(format!("deliver r {} {}", l.client, p), format!("ok {} id={} q={} an={}", l.result.clone().unwrap_or("-".into()), rid, rq, ran));
+                let res = l.result.clone().unwrap_or("-".into());
+                if res.starts_with("err") {
+                    rep.count(format!("lookup.{}", res));
+                    rep.line(format!("deliver r {} {}", l.client, p), format!("fail {}", res));
+                } else {
+                    rep.line(format!("deliver r {} {}", l.client, p), format!("ok {} id={} q={} an={}", res, rid, rq, ran));
+                }
             }
         }
     }
@@ -626,6 +656,10 @@ fn analyse(case: &Case, ob: &Observed, rep: &mut CaseReport) {
                     ),
                 }
             }
+            Some(r) if r.starts_with("err") => rep.fail(
+                format!("client {} got {} for `{}` although the server's record is {}", l.client, r, nm, want),
+                "registered name resolves to an error",
+            ),
             Some(r) if *r != want => rep.fail(
                 format!("client {} resolved `{}` to {} but the server's record is {}", l.client, nm, r, want),
                 if BUILTIN.iter().any(|b| b.0.as_bytes() == &l.name[..]) { "wrong address (stand-in name)" } else { "wrong address" },
@@ -654,7 +688,7 @@ fn analyse(case: &Case, ob: &Observed, rep: &mut CaseReport) {
     for i in &order {
         let l = &lks[i];
         if let (Some(d), Some(r)) = (l.done_ev, &l.result) {
-            if r != "err" {
+            if !r.starts_with("err") {
                 let e = first_ok.entry((l.client, l.name.clone())).or_insert((d, r.clone()));
                 if d < e.0 {
                     *e = (d, r.clone());
